@@ -690,7 +690,8 @@ Section Main.
           intros [v0 a0] x1 D Hc Hs. eapply cast_ranges_ks; eassumption. }
         intros s1 rs Hi1 Hrs _ _ _. apply good_ret; [exact Hi1|]. unfold VAL, CL in *. cbn [fst ks_value].
         apply fold_extend_ks; [apply sub_nil|exact Hrs].
-      + eapply good_bind; [apply (map_st_good ks_schema); [|exact Hi]|].
+      + destruct (vop_of op) as [o|]; [|exact I].
+        eapply good_bind; [apply (map_st_good ks_schema); [|exact Hi]|].
         { intros s0 x0 Hi0. apply (step_good EV cast_schema ks_schema IH0); [|exact Hi0].
           intros [v0 a0] x1 D Hc Hs. eapply cast_schema_ks; eassumption. }
         intros s1 ss Hi1 Hss _ _ _. apply good_ret; [exact Hi1|exact Hss].
